@@ -3,11 +3,11 @@ from props import endpoint, receiver
 
 RULE = ("macro events (local call + peer answer, or peer first + application touch) over two sessions and four links: attach, duplicate name, refused attach, detach / close / drop, "
         "peer detach with and without error, sends queued right before detach / drop / end, end with and without error, peer end; every enabled sequence up to the depth bound, "
-        "peer handles small and sparse (70000+); distinct = distinct scripts")
+        "peer handles small and sparse (70000+); the same on the listener side (sessions and links the peer starts and the application accepts); distinct = distinct scripts")
 
 
 def gens(tier):
-    return [("endpoint/LifeGen", "endpoint/LifeGen_%s.cfg" % n) for n in (["b", "da"] if tier == "thorough" else ["a", "b"])]
+    return [("endpoint/LifeGen", "endpoint/LifeGen_%s.cfg" % n) for n in (["b", "da", "lb", "lda"] if tier == "thorough" else ["a", "b", "la", "lb"])]
 
 
 def check_c13(pid, tier, replay):
